@@ -1,5 +1,5 @@
 (* C01 - Serialized arrays decode to exactly the input records. *)
-From Verif Require Import Builder Builder_proofs Bits_proofs Refine_proofs.
+From Verif Require Import Builder Builder_proofs Bits_proofs Refine_proofs SerializerTables SerTablesSpec.
 
 (* Full-strength statement (kept visible). It is evaluated on every case of the check as the
    specification oracle RunC01.oracle (decode of the implementation's arrays = interp of the rows,
@@ -16,6 +16,36 @@ Definition C01_full : Prop :=
                                               | LStruct fs => match nth_error fs i with Some (_, v) => v | None => LNull end
                                               | _ => LNull end) lrows))
             (seq 0 (length arrs)) arrs.
+
+(* ---- tie to the source by translation (regenerated from /repo on every run) ---- *)
+(* the default methods of SimpleSerializer: Some / newtype struct are transparent, unit and unit
+   struct are a none, everything else refuses - exactly the first three arms of the model's push *)
+Theorem C01_serializer_defaults_table : defaults_ok = true.
+Proof. vm_compute. reflexivity. Qed.
+
+(* every data type is routed to the builder type the model assumes, and every builder type
+   accepts exactly the serde methods recorded (a builder gaining or losing a method, or a type
+   routed elsewhere, changes the generated table) *)
+Theorem C01_builder_tables : builder_dispatch_ok = true /\ builder_methods_ok = true.
+Proof. split; vm_compute; reflexivity. Qed.
+
+(* the recorded method sets are what the model's leaf builders accept: for every scalar serde
+   method, the table lists it for the builder type iff the model's push of a value of that kind
+   succeeds (floats into string columns are outside the model: judged in C14/C15) *)
+Definition scalar_methods : list (String.string * Value) :=
+  [("serialize_bool", VBool true); ("serialize_i8", VInt I8 1); ("serialize_i16", VInt I16 1); ("serialize_i32", VInt I32 1); ("serialize_i64", VInt I64 1);
+   ("serialize_u8", VInt U8 1); ("serialize_u16", VInt U16 1); ("serialize_u32", VInt U32 1); ("serialize_u64", VInt U64 1);
+   ("serialize_char", VChar 97); ("serialize_str", VStr (b "s")); ("serialize_bytes", VBytes [1%N]);
+   ("serialize_unit_variant", VUnitVariant 0 (b "V"))]%string.
+Definition table_accepts (builder : String.string) (m : String.string) : bool :=
+  match SerTablesSpec.lookup builder expected_builder_methods with Some ms => existsb (String.eqb m) ms | None => false end.
+Definition model_agrees (builder : String.string) (bld : Builder) : bool :=
+  forallb (fun mv : String.string * Value => Bool.eqb (table_accepts builder (fst mv)) (is_ok (push (snd mv) bld))) scalar_methods.
+Theorem C01_method_tables_match_model :
+  model_agrees "BoolBuilder"%string (BdBool None [] 0) = true /\
+  model_agrees "IntBuilder"%string (BdPrim I64 None []) = true /\
+  model_agrees "Utf8Builder"%string (BdUtf8 BUtf8 None [0%Z] []) = true.
+Proof. repeat split; vm_compute; reflexivity. Qed.
 
 (* one push: if the builder accepts the value, the value is in the documented mapping, and the
    logical content of the arrays grows by exactly the denoted value; no earlier row changes *)
